@@ -37,8 +37,22 @@ def register(vc):
                "with the other options; services implement QueryerWithMiddlewares and report which request middlewares each call "
                "carried; service faults (transport error, errors+partial data, errors+null) assigned to 0/15/40/100% of the calls by a "
                "seeded hash. Non-trivial = at least two middlewares and at least one outbound call; distinct = distinct case JSON.",
+        "C15": "PRNG(seed)-generated federations behind Gateway.GraphQLHandler under httptest: single POSTs, batches of 0-4 operations "
+               "(valid / unplannable / empty / hash-only / query+hash / duplicates, ~25% of runs with service faults), malformed POST "
+               "bodies (null, [null], scalars, {}, [{}], every wrong JSON kind at every field of the operation object incl. extensions."
+               "persistedQuery, raw non-JSON bytes), content types (json with parameters, text/plain, empty, absent, unknown, leading "
+               "space, upper case), GETs with valid and invalid variables / extensions parameters, other methods. Each operation is "
+               "also sent alone to obtain its own outcome. Non-trivial = two or more operations, or a malformed body, or a GET.",
+        "C16": "the batch requests of the C15 generator (0-4 operations, duplicates, keyed and un-keyed operations mixed, failing and "
+               "succeeding ones mixed); service replies are delayed by rank so that the operations complete in a chosen permutation; "
+               "every operation is also sent alone. Non-trivial = two or more operations.",
     })
     vc.ASSUMPTIONS.update({
+        "C15": ["bytes -> JSON value is encoding/json's (inputs are JSON values; raw byte bodies enter the model as 'not valid JSON'); multipart layouts are covered by C18",
+                "JSON object keys are matched exactly (encoding/json also accepts other letter cases; not generated)",
+                "what planning and execution of one operation yield is an input of the handler model, observed by sending the operation alone"],
+        "C16": ["completion orders are forced by delaying service replies (8 ms per rank), not by a scheduler hook",
+                "as C15"],
         "C19": ["the executor's (data, error) is recorded by a wrapping Executor; the data left by the built-in scrubber is what the first response middleware is handed",
                 "a failure of the built-in scrubber itself (a defect tracked under C04) ends the request before any user middleware: such runs are only checked for the request middlewares",
                 "the gateway's own queryer (node / introspection) is not a network queryer and takes no request middlewares"],
